@@ -333,6 +333,37 @@ pub fn inputs(tier: &str, seed: u64, mut f: impl FnMut(&[u8], &str)) {
         let text = lines.join("\n") + "\n";
         f(text.as_bytes(), "tiny-catmull");
     }
+    // 3d. tick-dense sliders: the slider-event iterator of collect_samples runs about
+    // span_count * length / tick_distance steps; the decoder's clamps allow a tick distance as
+    // small as 0.5 (slider velocity 0.1 with format >= 8, or 10 with format < 8 in catch) and a
+    // length up to 100000 (MAX_LEN).  Span counts are kept small here (the cost is linear in
+    // them: 9000 repeats would be ~16 s of legitimate work per line, beyond the watchdog).
+    for i in 0..40 * scale {
+        let mode = if i % 2 == 0 { 0 } else { 2 };
+        let version = *r.pick(&[14i64, 7, 8, 5]);
+        let inh = *r.pick(&["-1000", "-10", "-100", "-2000", "-1"]);
+        let mut lines: Vec<String> = vec![
+            format!("osu file format v{}", version),
+            "[General]".into(),
+            format!("Mode: {}", mode),
+            "[Difficulty]".into(),
+            "SliderMultiplier:0.4".into(),
+            format!("SliderTickRate:{}", r.pick(&["8", "4", "100", "0.5"])),
+            "[TimingPoints]".into(),
+            format!("0,{},4,1,0,100,1,0", r.pick(&["500", "6", "60000", "0.001", "1e9"])),
+            format!("0,{},4,1,0,100,0,0", inh),
+            "[HitObjects]".into(),
+        ];
+        let n = r.range(1, 3);
+        for j in 0..n {
+            let reps = r.range(1, 12);
+            let len = *r.pick(&["100000", "131072", "50000", "99999.5", "1e5"]);
+            let path = *r.pick(&["L|1:0", "L|300:0", "B|100:100|200:0", "C|50:50|100:0"]);
+            lines.push(format!("0,0,{},2,0,{},{},{}", 1000 * j, path, reps, len));
+        }
+        let text = lines.join("\n") + "\n";
+        f(text.as_bytes(), "tick-dense");
+    }
     // 4. BOM / UTF-16 variants incl. odd tails and truncated code units
     for i in 0..60 * scale {
         let o = Opts { level: 1, max_objects: 5, ..Opts::default() };
